@@ -62,6 +62,36 @@ struct access
         return "end=" + (end == list.end() ? std::string("-") : std::to_string(*end)) + " list=" + join(l) +
                " size=" + std::to_string(c.m_used_size) + " used=" + join(used);
     }
+#elif defined(HK_tlru) || defined(HK_utlru)
+    template<class C> static std::string dump(C& c)
+    {
+        auto& list = c.m_lru_list;
+        auto  end  = c.m_lru_end;
+        std::vector<std::pair<uint64_t, size_t>> ks;
+        for (auto& [k, idx] : c.m_keyed_elements) ks.emplace_back(k, idx);
+        std::sort(ks.begin(), ks.end());
+        std::vector<std::string> l, used, tq;
+        for (auto x : list) l.push_back(std::to_string(x));
+        auto ns = [](std::chrono::steady_clock::time_point t) { return std::to_string(t.time_since_epoch().count()); };
+#if defined(HK_tlru)
+        for (auto& [t, idx] : c.m_ttl_list) tq.push_back(ns(t) + ":" + std::to_string(idx));
+#else
+        for (auto idx : c.m_ttl_list) tq.push_back(ns(c.m_elements[idx].m_expire_time) + ":" + std::to_string(idx));
+#endif
+        for (auto& [k, idx] : ks)
+        {
+            auto& e = c.m_elements[idx];
+#if defined(HK_tlru)
+            size_t tslot = e.m_ttl_position->second;
+#else
+            size_t tslot = *e.m_ttl_position;
+#endif
+            used.push_back(std::to_string(idx) + ":" + std::to_string(id(e.m_value)) + ":" + std::to_string(*e.m_lru_position) +
+                           ":" + std::to_string(e.m_keyed_position->first) + ":" + ns(e.m_expire_time) + ":" + std::to_string(tslot));
+        }
+        return "end=" + (end == list.end() ? std::string("-") : std::to_string(*end)) + " list=" + join(l) +
+               " size=" + std::to_string(c.m_used_size) + " ttl=" + join(tq) + " used=" + join(used);
+    }
 #else
     template<class C> static std::string dump(C&) { return "-"; }
 #endif
